@@ -45,6 +45,23 @@ func VerifC01_FlowModInstructions() {
 	c01framed(f, Type_FlowMod)
 }
 
+// flow-mod whose apply-actions carries a set-field (or reg_load2) of every field kind: the
+// action's own padding depends on the field's width (4+4+w already aligned for 8- and 16-byte
+// fields), so the frame must be checked for each width, not for two representative kinds.
+func VerifC01_FlowModSetFieldEveryKind() {
+	f := NewFlowMod()
+	f.Command = vr.U8("command")
+	ia := NewInstrApplyActions()
+	fld := buildField(vr.Choice("fkind", nFieldKinds))
+	if vr.Bool("regload2") {
+		ia.AddAction(NewNXActionRegLoad2(fld), false)
+	} else {
+		ia.AddAction(NewActionSetField(*fld), false)
+	}
+	f.AddInstruction(ia)
+	c01framed(f, Type_FlowMod)
+}
+
 func VerifC01_FlowModMatch() {
 	f := NewFlowMod()
 	f.Command = vr.U8("command")
